@@ -63,6 +63,47 @@ impl core::ops::Add<Lin> for Felt {
         ensures r.lo() == rhs.lo(), r.hi() == rhs.hi(), r.count() == rhs.count(), r.czero() == (self@ == 0 && rhs.czero())
     { unimplemented!() }
 }
+// ---- DEEP evaluator: which out-of-domain value a coefficient weights ------------------------------------------------------
+// `oods_values` is retyped to `&[OodsVal]` (rule C16_retype_oods_values): an OodsVal can only be subtracted from a field element
+// (giving a `Term` that remembers the value's position), a Term can only be divided by a non-zero field element, and
+// `Coeff * Term` requires that coefficient and out-of-domain value have the SAME position: opening i is weighted by coefficient i.
+#[verifier::external_body]
+#[derive(Clone, Copy)]
+pub struct OodsVal { _x: [u64; 4] }
+impl OodsVal { pub uninterp spec fn pos(&self) -> int; }
+#[verifier::external_body]
+#[derive(Clone, Copy)]
+pub struct Term { _x: [u64; 4] }
+impl Term {
+    pub uninterp spec fn pos(&self) -> int;
+    #[verifier::external_body]
+    pub fn field_div(&self, rhs: &NonZeroFelt) -> (r: Term) ensures r.pos() == self.pos() { unimplemented!() }
+}
+/// out-of-domain value i sits at position i
+pub open spec fn oods_ok(c: Seq<OodsVal>, n: int) -> bool { c.len() == n && forall|i: int| 0 <= i < n ==> (#[trigger] c[i]).pos() == i }
+impl SubSpecImpl<OodsVal> for Felt {
+    open spec fn obeys_sub_spec() -> bool { false }
+    open spec fn sub_req(self, rhs: OodsVal) -> bool { true }
+    open spec fn sub_spec(self, rhs: OodsVal) -> Term { arbitrary() }
+}
+impl core::ops::Sub<OodsVal> for Felt {
+    type Output = Term;
+    #[verifier::external_body]
+    fn sub(self, rhs: OodsVal) -> (r: Term) ensures r.pos() == rhs.pos() { unimplemented!() }
+}
+impl MulSpecImpl<Term> for Coeff {
+    open spec fn obeys_mul_spec() -> bool { false }
+    /// coefficient i weights the opening of out-of-domain value i   [C16, C01]
+    open spec fn mul_req(self, rhs: Term) -> bool { self.pos() == rhs.pos() }
+    open spec fn mul_spec(self, rhs: Term) -> Lin { arbitrary() }
+}
+impl core::ops::Mul<Term> for Coeff {
+    type Output = Lin;
+    #[verifier::external_body]
+    fn mul(self, rhs: Term) -> (r: Lin)
+        ensures r.lo() == self.pos(), r.hi() == self.pos() + 1, r.count() == 1, r.czero()
+    { unimplemented!() }
+}
 /// ORACLE (C16): the value is a linear form with exactly one term per coefficient position 0..n-1 and no constant part
 pub open spec fn lin_complete(r: Lin, n: int) -> bool { r.lo() >= 0 && r.hi() <= n && r.count() == n && r.czero() }
 } // verus!
